@@ -136,6 +136,29 @@ CLAIMED = {
             "for bit by the model from the recorded generator draws.",
             "Trusted: Lean kernel; np.argsort returns a sorting permutation (validated per case); scipy betabinom range; harness/vp/tape.py.",
             "DESIGN.md §4 C16"),
+    "C08": ("Lean 4 proof (weighted-sum form of compute_loss for an arbitrary 1-d loss, coordinate-permutation invariance, zero weight, default 1/D, validation order, ensemble-permutation invariance, sign/zero of Minkowski and MSM cores) + bit-exact stub runs and purity/symmetry checks on every built-in loss",
+            "Proved in Lean over any ordered field: compute_loss = sum_i w_i * loss_1d(filter_i(sim_i), real_i) for an arbitrary single-coordinate loss; unchanged by permuting "
+            "coordinates with their weights and filters; a zero weight removes a coordinate; without weights it is the mean; wrong-length weight/filter lists are rejected, "
+            "weights first; Minkowski and method-of-moments (identity, inverse variance, any moment calculator) are unchanged by permuting ensemble members, non-negative "
+            "(inverse variance under the guard v_i > 0) and zero when every member equals the real data. Purity (no input mutation, no state leakage) is decided on the real "
+            "objects; the stub runs are compared bit for bit with the model and with an exact rational weighted sum.",
+            "Trusted: Lean kernel; numpy reductions compared to 1e-12; Fourier/GSL/likelihood symmetry and sign are checked on the implementation only. Known finding: NaN of inverse-variance MSM at zero spread.",
+            "DESIGN.md §4 C08"),
+    "C07": ("Lean 4 proof of the algorithmic content (base-10 word packing injective for symbols <= 9 hence word frequencies = tuple frequencies; GSL weights sum to 1; ideal low-pass mask; default weights and per-coordinate filters via C08) + every built-in loss against an independent reference implementation of its documented definition",
+            "Proved in Lean: packed words are in one-to-one correspondence with symbol tuples when every symbol is <= 9, so estimated word probabilities are the documented "
+            "ones; collision witness for >= 10 symbols (known finding); the running GSL weights sum to one; the ideal filter keeps exactly the first n components; filters and "
+            "weights enter as C08 proves. The numerical definitions (Minkowski norm of the ensemble mean, 18 moments and gWg, filtered Fourier distance, GSL-div with tuple "
+            "words, kernel likelihood with Silverman/Scott bandwidth) are evaluated by an independent plain-loop reference and compared at 1e-9 (1e-6) relative tolerance over "
+            "random data and options; discrete GSL intermediates are compared exactly with the model.",
+            "Level: proof of structure + tolerance-validated numerics (floating-point evaluation of sqrt/exp/log/FFT is not proved). Known findings: GSL base-10 packing for nb_values >= 10 and word lengths >= 16.",
+            "DESIGN.md §4 C07"),
+    "C20": ("Lean 4 proof (I + lambda K'K positive definite for every real K and lambda > 0 => the HP optimality condition has exactly one solution; cycle + trend = y; de-meaned difference keeps length and has zero sum; nan_to_num output finite) + residual / exact-rational validation of hp_filter and definitional checks of the derived filters and the 18 moments",
+            "Proved in Lean (Mathlib matrices over R): for every length and every lambda > 0 the HP system matrix is positive definite, hence invertible, so the trend is the "
+            "unique solution of the optimality condition and cycle + trend is the input; the de-meaned first difference has the input's length and zero sum; after nan_to_num "
+            "every summary entry is finite. That spsolve returns that solution is validated by the residual bound 1e3*eps*(1+16*lambda)*max|y| on lengths 3-2000 and lambda in "
+            "[1e-3,1e7] and by an exact rational pentadiagonal solve for n <= 40; derived filters are compared with their definitions, the moment summary with a reference.",
+            "Trusted: Lean kernel, Mathlib; scipy/statsmodels numerical kernels (validated with tolerance).",
+            "DESIGN.md §4 C20"),
 }
 NOT_YET = {}
 
